@@ -484,12 +484,13 @@ PROPS["C13"] = {
 
 # Radau's rejection branch with a NaN / inf error norm, bit-precisely (R over z3 Float64 terms on the source slice)
 for _t in ("quick", "thorough"):
-    PROPS["C04"]["r"][_t] = PROPS["C04"]["r"][_t] + [_ri().c04_radau_controller_nan]
+    PROPS["C04"]["r"][_t] = PROPS["C04"]["r"][_t] + [_ri().c04_radau_controller_nan, _ri().c04_dop_controller_nan("DOP853")]
+PROPS["C04"]["r"]["thorough"] = PROPS["C04"]["r"]["thorough"] + [_ri().c04_dop_controller_nan("DOPRI5")]
 PROPS["C04"]["files"] = PROPS["C04"]["files"] + ["src/methods/radau.rs"]
 PROPS["C04"]["explanation"] += (" Radau (engine R, bit-precise): the controller statements fac/quot/hnew and the rejection arm of `if err <= 1.0`, sliced from the source and executed over z3 Float64 terms "
                                 "(NaN, infinities, Rust's max/min/clamp semantics): a NaN or +inf error norm is rejected and the next step is finite, points the same way and is <= 0.95|h|, for every finite h and "
                                 "every controller parameter in its documented range; confirmed natively through solve_ivp with a right-hand side that turns NaN (hang detection).")
-PROPS["C04"]["outside"] = [o.replace("Radau, BDF", "Radau beyond its rejection branch; BDF") for o in PROPS["C04"]["outside"]]
+PROPS["C04"]["outside"] = [o.replace("Radau, BDF", "Radau beyond its rejection branch; BDF") for o in PROPS["C04"]["outside"]] + ["DOP853's NaN rejection through a whole first trial (its K harness misread the evaluation DOP853 makes between acceptance and callback and was withdrawn); what is decided instead is the bit-precise slice of its controller and rejection arm"]
 
 # C03's last clause ("under Success all values produced by error-controlled methods are finite"): the NaN half, bit-precisely (K)
 PROPS["C03"]["k"] = {"quick": [n for n in _C04_N if "dop853" not in n and "back" not in n], "thorough": _C04_N}
